@@ -407,6 +407,10 @@ class ILExec:
             return st
         if n.startswith("hex_") and n[4:] in self.subs:
             return self.call(n[4:], a, st, pc, cenv)
+        if n.startswith("hex_"):
+            # the hex_ prefix is the compiler's own naming scheme for sub-routine definitions: a call of a hex_ function that no
+            # registered sub-routine defines does not link
+            raise ILSyntaxError(f"call of {n}(): no sub-routine definition of that name (C identifiers are case sensitive)")
         raise ModelGap(f"effect {n}")
 
     def repeat(self, a, st, pc, cenv, k, depth):
